@@ -516,6 +516,20 @@ def build(E):
               "std::convert::num::<impl std::convert::From<u8> for u64>::from", "std::convert::num::<impl std::convert::From<u16> for i32>::from",
               "std::convert::num::<impl std::convert::From<u32> for i128>::from"):
         M[n] = conv_from
+    # every lossless integer widening of std (From<small> for big) is the identity on values; From<bool> gives 0 / 1
+    _w = {"u8": 8, "u16": 16, "u32": 32, "u64": 64, "u128": 128, "usize": 64, "i8": 8, "i16": 16, "i32": 32, "i64": 64, "i128": 128, "isize": 64}
+    for a_, wa in _w.items():
+        for b_, wb in _w.items():
+            if a_ != b_ and (wb > wa) and not (a_.startswith("i") and b_.startswith("u")):
+                M.setdefault("std::convert::num::<impl std::convert::From<%s> for %s>::from" % (a_, b_), conv_from)
+
+    def from_bool(F, bi, st, t, args):
+        a = ival(F, st, args[0])
+        if a is not None and 0 <= a[1] and a[2] <= 1:
+            return a
+        return ("i", 0, 1)
+    for b_ in _w:
+        M["std::convert::num::<impl std::convert::From<bool> for %s>::from" % b_] = from_bool
 
     def try_from(dst):
         rng = int_ty_range(dst)
